@@ -24,7 +24,7 @@ theorem a85Loop_digit (n : Nat) (rest : Bytes) (buf count : Nat) :
 
 theorem a85Step_ok (buf d : Nat) (h : buf * 85 + d ≤ 4294967295) : a85Step buf d = some (buf * 85 + d) := by
   unfold a85Step
-  simp only [A85_BASE, U32_MAX]
+  simp only [A85_BASE, A85_U32_MAX]
   have h1 : ¬ buf * 85 > 4294967295 := by omega
   have h2 : ¬ buf * 85 + d > 4294967295 := by omega
   simp [h1, h2]
